@@ -154,7 +154,7 @@ def model_req(case):
     data = case["data"]
     if case["drop_phase_plane"]:
         data = [[[c[0], c[1], 1] for c in r] for r in data]
-    return {"op": "gtStore", "fmt": "pgen" if case["fmt"].startswith(".pgen") else "vcf", "data": data}
+    return {"op": "gtStore", "fmt": "pgen" if case["fmt"].startswith(".pgen") else "vcf", "data": data, "nv": len(case["variants"]), "wchunk": case["wchunk"], "rchunk": case["rchunk"]}
 
 
 def model_obs(case, resp):
@@ -276,11 +276,11 @@ def oracle_refuse(case, obs):
 CHECK = Check(
     id="C07",
     title="Genotypes written to VCF/BCF or PGEN read back unchanged",
-    theorems=["C07.vcf_cell_roundtrip", "C07.pgen_cell_roundtrip", "C07.pgen_store_idempotent", "C07.chunks_tile", "C07.chunk_size_positive", "C07.empty_roundtrip", "C07.allele_cts_sound"],
+    theorems=["C07.vcf_cell_roundtrip", "C07.pgen_cell_roundtrip", "C07.pgen_store_idempotent", "C07.chunks_tile", "C07.chunk_size_positive", "C07.empty_roundtrip", "C07.allele_cts_sound", "C07.pgen_matrix_roundtrip", "C07.pgen_file_independent_of_chunk_size", "C07.pgen_matrix_second_trip_is_identity"],
     sections=[
         Section(
             name="write_read",
-            theorems=["C07.vcf_cell_roundtrip", "C07.pgen_cell_roundtrip", "C07.chunks_tile", "C07.chunk_size_positive", "C07.empty_roundtrip", "C07.allele_cts_sound"],
+            theorems=["C07.vcf_cell_roundtrip", "C07.pgen_cell_roundtrip", "C07.chunks_tile", "C07.chunk_size_positive", "C07.empty_roundtrip", "C07.allele_cts_sound", "C07.pgen_matrix_roundtrip", "C07.pgen_file_independent_of_chunk_size", "C07.pgen_matrix_second_trip_is_identity"],
             gen=gen,
             impl=impl,
             model_req=model_req,
